@@ -41,6 +41,21 @@ MANIFEST = dict(
               "Hoare reasoning over a heap model of PDUOption, refinement to a value model) + model/impl "
               "correspondence on real objects with allocator census",
     design="DESIGN.md §6 C12")
+MANIFEST["text"] += (" The assumption under both models — member-wise copy / move of a class is a deep value copy and the only "
+                     "pointers are PDU::inner_pdu_ / parent_pdu_, Packet::pdu_ and the option's heap buffer — is tied to the source: "
+                     "translator/gen_members.py regenerates lean/TinsModel/Gen/Members.lean (every non-static data member of every "
+                     "class derived from PDU, of Packet, PtrPacket / RefPacket, every PDUOption instantiation, PDUCacher, "
+                     "IPv4Reassembler / IPv4Stream, TCPStream and the tcp_ip classes, classified value / nested / container / "
+                     "ownedPtr / nonOwningPtr / smartPtr / reference / ptrContainer / other; the status of the five special member "
+                     "functions and the destructor with the members each user-provided body mentions; the clone() override) and "
+                     "lean/TinsModel/Props/Members/C12.lean decides over that table: only_known_pointer_members (allow-list naming the "
+                     "model function that mirrors each pointer), every_concrete_class_overrides_clone, no_class_slices (final overrider "
+                     "resolved through the hierarchy), rule_of_three_consistent, members_scan_complete, allow_list_not_stale. "
+                     "harness op `copyall` runs copy-construct, copy-assign, move-construct, move-assign and clone on a populated "
+                     "object (parsed from the wire generators' byte strings, or populated through the API) of every concrete class of "
+                     "the table in three mutation / destruction orders and compares serialisation, typeid, independence and the "
+                     "live-PDU census; when a table theorem fails the check searches with these operations on the classes named.")
+MANIFEST["technique"] += " + translator-generated member / special-member / clone table decided in Lean and exercised per class"
 MANIFEST["note"] += (" Constants and limits of the C++ source that the model restates (translator/gen_limits.py -> Gen/Limits.lean: "
                      "compiled probe + preprocessed function bodies at named anchors) are tied to the model's numerals by the "
                      "theorems of lean/TinsModel/Props/Limits/C12.lean (audit: Audit/LimitsC12.lean); tools/LIMITS-INVENTORY.md lists "
